@@ -90,6 +90,15 @@ func c12SavedCopyAgrees(res *profile.Profile) bool {
 	return ok
 }
 
+// c12CleanSaved removes saved copies left by earlier runs (fetchProfiles saves before its final
+// CheckValid, so a refused profile leaves one behind).
+func c12CleanSaved() {
+	saved, _ := filepath.Glob(filepath.Join(os.Getenv("PPROF_TMPDIR"), "pprof.*"))
+	for _, n := range saved {
+		os.Remove(n)
+	}
+}
+
 func c12AbsURL(f string) bool {
 	if filepath.VolumeName(f) != "" {
 		return false
@@ -126,6 +135,7 @@ func c12Fetch(c *Ctx, gen, mode, src string, p *profile.Profile, script []c12Ans
 			names[f.Func] = true
 		}
 	}
+	c12CleanSaved()
 	live := false
 	sc := &c12Script{ans: script}
 	o := &plugin.Options{
@@ -154,7 +164,7 @@ func c12Fetch(c *Ctx, gen, mode, src string, p *profile.Profile, script []c12Ans
 	default:
 		after := DumpProfile(res)
 		changed = Render(after) != Render(before)
-		obs = L(S("ok"), after, L(sc.log...), Bool(c12SavedCopyAgrees(res)))
+		obs = L(S("ok"), after, L(sc.log...), Bool(c12SavedCopyAgrees(res)), Bool(res.CheckValid() == nil))
 		for _, f := range res.Function {
 			names[f.SystemName] = true
 		}
@@ -207,8 +217,8 @@ func c12Fetch(c *Ctx, gen, mode, src string, p *profile.Profile, script []c12Ans
 
 // c12FetchProfile: a fetched profile: mappings often have neither file nor build id (legacy Go
 // profiles, JIT regions), sometimes there is no mapping at all (the fake mapping is then added).
-func c12FetchProfile(r *Rng) *profile.Profile {
-	p := c12Profile(r, false)
+func c12FetchProfile(r *Rng, wrapIDs bool) *profile.Profile {
+	p := c12Profile(r, wrapIDs)
 	p.DropFrames, p.KeepFrames = "", "" // RemoveUninteresting is C11's; kept out of this pipeline
 	// combineProfiles (CompatibilizeSampleTypes) is C07/C16's: sample type names are kept distinct so
 	// that it is the identity on a single profile
@@ -244,7 +254,7 @@ func runC12Fetch(c *Ctx) {
 	os.Setenv("PPROF_BINARY_PATH", filepath.Join(tmp, "no-binaries"))
 	defer os.RemoveAll(tmp)
 	for k := 0; k < c.Budget(240, 2500); k++ {
-		p := c12FetchProfile(r)
+		p := c12FetchProfile(r, false)
 		src := PickS(r, c12FetchSources)
 		mode := PickS(r, c12FetchModes)
 		if r.P(1, 3) {
@@ -256,6 +266,21 @@ func runC12Fetch(c *Ctx) {
 		}
 		c12Fetch(c, "fetch", mode, src, p, c12ScriptGen(r, p, plugin.MappingSources{}, rate))
 	}
+	// function ids right below 2^64 with mappings that still need symbols: the next id wraps to the
+	// reserved 0 (or collides), symbolization leaves an invalid profile and fetchProfiles must refuse it
+	for k := 0; k < c.Budget(40, 600); k++ {
+		p := c12FetchProfile(r, true)
+		for _, m := range p.Mapping {
+			if r.P(3, 4) {
+				m.HasFunctions, m.HasFilenames, m.HasLineNumbers = false, false, false
+				m.File = PickS(r, []string{"/bin/app", "/bin/app", ""})
+			}
+		}
+		src := PickS(r, c12FetchSources)
+		mode := PickS(r, []string{"", "local", "remote", "force", "remote:force", "local:force", "fastlocal"})
+		c12Fetch(c, "fetch-id-wrap", mode, src, p, c12ScriptGen(r, p, plugin.MappingSources{}, 1000))
+	}
+	runC12FetchX(c)
 	// the witness of F34: a local profile whose mapping file looks like an absolute URL, -symbolize=none
 	{
 		p := &profile.Profile{SampleType: []*profile.ValueType{{Type: "samples", Unit: "count"}}}
@@ -264,5 +289,144 @@ func runC12Fetch(c *Ctx) {
 		p.Mapping, p.Location = []*profile.Mapping{m}, []*profile.Location{l}
 		p.Sample = []*profile.Sample{{Location: []*profile.Location{l}, Value: []int64{1}}}
 		c12Fetch(c, "finding-F34", "none", "", p, nil)
+	}
+}
+
+// ---------------------------------------------------------------------------------------------
+// op "fetchx": fetchProfiles with a third-party plugin.Symbolizer (driver.Options.Sym) that leaves the
+// profile in a scripted, possibly inconsistent state.  What it left (dump, error, Go's CheckValid
+// verdict at its exit) is recorded and shipped as the plug-in's answer.
+
+type c12BadSym struct {
+	kind  int
+	r     *Rng
+	left  Term
+	err   bool
+	valid bool
+	ran   bool
+}
+
+var errC12Plugin = fmt.Errorf("plug-in failure")
+
+func (s *c12BadSym) Symbolize(mode string, srcs plugin.MappingSources, p *profile.Profile) error {
+	s.ran = true
+	var maxID uint64
+	for _, f := range p.Function {
+		if f.ID > maxID {
+			maxID = f.ID
+		}
+	}
+	loc := func() *profile.Location {
+		if len(p.Location) == 0 {
+			return nil
+		}
+		return p.Location[s.r.Intn(len(p.Location))]
+	}
+	reg := &profile.Function{ID: maxID + 1, Name: "plug", SystemName: "plug", Filename: "p.c"}
+	switch s.kind {
+	case 0: // well-behaved: registers the function it attaches
+		if l := loc(); l != nil && maxID < 1<<63 {
+			p.Function = append(p.Function, reg)
+			l.Line = []profile.Line{{Function: reg, Line: 3}}
+		}
+	case 1: // attaches a function it never registered (fresh id)
+		if l := loc(); l != nil {
+			l.Line = append(l.Line, profile.Line{Function: &profile.Function{ID: maxID + 7, Name: "ghost", SystemName: "ghost"}, Line: 1})
+		}
+	case 2: // attaches an unregistered copy of a registered function (same id, other object)
+		if l := loc(); l != nil && len(p.Function) > 0 {
+			f := *p.Function[s.r.Intn(len(p.Function))]
+			l.Line = append(l.Line, profile.Line{Function: &f, Line: 1})
+		}
+	case 3: // registers a function under the reserved id 0
+		p.Function = append(p.Function, &profile.Function{ID: 0, Name: "zero", SystemName: "zero"})
+	case 4: // reuses an id
+		if len(p.Function) > 0 {
+			p.Function = append(p.Function, &profile.Function{ID: p.Function[s.r.Intn(len(p.Function))].ID, Name: "dup", SystemName: "dup"})
+		}
+	case 5: // a line without a function
+		if l := loc(); l != nil {
+			l.Line = append(l.Line, profile.Line{Line: 9})
+		}
+	case 6: // moves a location into a mapping that is not in the table
+		if l := loc(); l != nil {
+			l.Mapping = &profile.Mapping{ID: 1<<40 + 3, Start: 1, Limit: 2}
+		}
+	case 7: // changes the number of values of a sample
+		if len(p.Sample) > 0 {
+			sm := p.Sample[s.r.Intn(len(p.Sample))]
+			sm.Value = append(sm.Value, 1)
+		}
+	case 8: // duplicates a location id
+		if l := loc(); l != nil {
+			p.Location = append(p.Location, &profile.Location{ID: l.ID, Address: 5})
+		}
+	case 9: // corrupts and reports an error
+		p.Function = append(p.Function, &profile.Function{ID: 0})
+		s.err = true
+	}
+	s.left = DumpProfile(p)
+	s.valid = p.CheckValid() == nil
+	if s.err {
+		return errC12Plugin
+	}
+	return nil
+}
+
+func c12FetchX(c *Ctx, kind int, mode, src string, p *profile.Profile) {
+	if p.CheckValid() != nil {
+		return
+	}
+	before := DumpProfile(p)
+	files := map[string]bool{src: true}
+	for _, m := range p.Mapping {
+		files[m.File] = true
+	}
+	c12CleanSaved()
+	bad := &c12BadSym{kind: kind, r: c.R}
+	live := false
+	sc := &c12Script{}
+	o := &plugin.Options{Fetch: &c12Fetcher{p, src}, Obj: &c12GatedTool{&c12Tool{sc}, &live}, UI: c12UI{}, HTTPTransport: &c12RT{sc}, Sym: bad}
+	var obs Term
+	var res *profile.Profile
+	var ferr error
+	func() {
+		defer func() {
+			if e := recover(); e != nil {
+				obs = L(S("panic"), S(fmt.Sprint(e)))
+			}
+		}()
+		res, ferr = driver.VerifC12FetchProfiles([]string{"the-source"}, mode, o)
+	}()
+	switch {
+	case obs != nil:
+	case ferr != nil || res == nil:
+		obs = L(S("err"))
+	default:
+		obs = L(S("ok"), DumpProfile(res), Bool(res.CheckValid() == nil))
+		for _, m := range res.Mapping {
+			files[m.File] = true
+		}
+		c12SavedCopyAgrees(res) // removes the saved copy
+	}
+	if !bad.ran {
+		// the pipeline never entered the plug-in (not the case on the code as it is): answer = untouched
+		bad.left, bad.valid = before, true
+	}
+	var absT []Term
+	for _, f := range c12SortedKeys(files) {
+		if c12AbsURL(f) {
+			absT = append(absT, L(S(f), Bool(true)))
+		}
+	}
+	in := L(S("fetchx"), S(mode), before, L(bad.left, Bool(bad.err), Bool(bad.valid)), S(src), L(absT...))
+	c.Case("fetch-plugin", in, obs, kind != 0, fmt.Sprintf("plugin-kind:%d", kind))
+}
+
+func runC12FetchX(c *Ctx) {
+	r := c.R
+	for k := 0; k < c.Budget(80, 1000); k++ {
+		p := c12FetchProfile(r, false)
+		c12FetchX(c, k%10, PickS(r, c12FetchModes), PickS(r, c12FetchSources), p)
 	}
 }
